@@ -274,7 +274,9 @@ CLASS = {
     # consumption: what later actions read
     "C05": dict(mode="seq", cls=_cls({**SCRIPT, "invorder": "up", "raw": "out", "panic": "up"})),
     # priority order of the registry / of evaluation
-    "C06": dict(mode="block", cls=_cls({**SCRIPT, "gorder": "out", "evalorder": "out", "panic": "up"})),
+    # … and its consequence in the statement: the higher-priority consuming actions win contested inputs, i.e. what the bindings of
+    # the lower-priority contexts read (seeded change C06r4: a consuming action that stays Ongoing stops hiding its inputs)
+    "C06": dict(mode="block", cls=_cls({**SCRIPT, "gorder": "out", "evalorder": "out", "raw": "out", "panic": "up"})),
     # registry mirrors the world; fresh instances
     "C07": dict(mode="block", cls=_cls({**SCRIPT, "has": "out", "gsets": "out", "pp": "out", "panic": "out", "ps": "out", "pd": "out"})),
     # initial suppression: which inputs are driven, what they read
